@@ -5,6 +5,7 @@ import (
 	"fmt"
 	"os"
 	"runtime"
+	"runtime/pprof"
 	"sort"
 	"strings"
 	"time"
@@ -27,6 +28,14 @@ func main() {
 	defer cleanupScratch()
 	switch os.Args[1] {
 	case "verify":
+		if pf := os.Getenv("GOVC_CPUPROFILE"); pf != "" {
+			f, _ := os.Create(pf)
+			pprof.StartCPUProfile(f)
+			code := cmdVerify(os.Args[2:])
+			pprof.StopCPUProfile()
+			f.Close()
+			os.Exit(code)
+		}
 		os.Exit(cmdVerify(os.Args[2:]))
 	case "loops":
 		os.Exit(cmdLoops(os.Args[2:]))
